@@ -5,7 +5,7 @@
 # and removes the copy. -R applies the patch in reverse (used to re-introduce a
 # defect that a fix: commit repaired).
 set -u
-patch="$1"; props="$2"; rev="${3:-}"
+patch="$(readlink -f "$1")"; props="$2"; rev="${3:-}"
 export GOFLAGS=-mod=mod GOPROXY=off GOSUMDB=off GOTOOLCHAIN=local GOWORK=off
 d=$(mktemp -d "${TMPDIR:-/tmp}/calcmut.XXXXXX")
 trap 'rm -rf "$d"' EXIT
